@@ -588,6 +588,24 @@ func (e *ruleEnv) instantiate(c map[string]interface{}) []*ruleText {
 		rt.ast.List, rt.ast.Action = "exit", str("action")
 		rt.args = []string{"-a", rt.ast.Action + ",exit"}
 		parg, pit, _, _ := e.filterFor(str("pf"), str("pop"), "short")
+		if sp := str("spell"); sp != "clean" {
+			// the same file or directory, spelt unclean
+			name := parg[len(str("pf"))+len(str("pop")):]
+			switch sp {
+			case "slash":
+				if str("pf") == "dir" {
+					name += "/"
+				} else {
+					name = filepath.Dir(name) + "//" + filepath.Base(name)
+				}
+			case "double":
+				name = filepath.Dir(name) + "//" + filepath.Base(name)
+			case "dot":
+				name = filepath.Dir(name) + "/./" + filepath.Base(name)
+			}
+			parg = str("pf") + str("pop") + name
+			pit = strItem(str("pf"), str("pop"), name)
+		}
 		marg, mit, _, _ := e.filterFor("perm", "=", str("permv"))
 		switch str("perm") {
 		case "before":
@@ -635,6 +653,16 @@ func (e *ruleEnv) instantiate(c map[string]interface{}) []*ruleText {
 		a, b := num("a"), num("b")
 		rt.ast.Syscalls = astSyscalls{All: false, Nums: []int{a, b}, Names: []astName{}}
 		rt.args = append(rt.args, "-S", fmt.Sprintf("%d,%d", a, b))
+		return []*ruleText{rt}
+	case "archnum":
+		rt := &ruleText{ast: newAst(), c07: true, cls: "archnum:" + str("arch")}
+		rt.ast.List, rt.ast.Action = "exit", actions[r.Intn(2)]
+		rt.args = []string{"-a", rt.ast.Action + ",exit"}
+		arg, it, _, _ := e.filterFor("arch", str("op"), str("arch"))
+		rt.args = append(rt.args, "-F", arg)
+		rt.ast.Items = append(rt.ast.Items, it)
+		rt.ast.Syscalls = astSyscalls{All: false, Nums: []int{num("n"), num("m")}, Names: []astName{}}
+		rt.args = append(rt.args, "-S", fmt.Sprintf("%d,%d", num("n"), num("m")))
 		return []*ruleText{rt}
 	case "sysbig":
 		rt := &ruleText{ast: newAst(), c07: false, cls: "sysbig"}
